@@ -850,4 +850,9 @@ pub mod verif_hooks {
         let table = face.layout_table(ti)?;
         Some(table.find_language_feature(script_index, lang_index, hb_tag_t(feature_tag)))
     }
+
+    /// `_hb_ot_layout_reverse_graphemes` on a bare buffer (grapheme = base + continuation glyphs).
+    pub fn reverse_graphemes(buffer: &mut hb_buffer_t) {
+        super::_hb_ot_layout_reverse_graphemes(buffer)
+    }
 }
